@@ -124,3 +124,31 @@ package index
 //@   loop 1 invariant shadow_scan: 0 <= rangeindex+1 && rangeindex+1 <= len(superseedingIndexes) && forall(j, 0, rangeindex+1, !haskey(superseedingIndexes[j].containedStreamIds, s.StreamID))
 //@   ensures shadow_exact: result0 == forall(j, 0, len(superseedingIndexes), !haskey(superseedingIndexes[j].containedStreamIds, s.StreamID))
 //@   ensures shadow_noerr: isnil(result1)
+
+// ---------------------------------------------------------------------------
+// C04: the shortcut scan of one payload filter. Whatever prefix skip, suffix cut or fixed-size window
+// is taken, the searched window stays inside the stored payload, the per-direction offset only moves
+// forward and stays inside the payload, the other direction's offset is untouched, the window loop
+// terminates - and a reported match is relative to the offset the function leaves behind (the caller
+// adds the match end to that offset).
+// Assumed: bytes.Index/LastIndex return -1 or a position where the needle fits; the regex engine is pure;
+// a constant suffix is never longer than the minimal match length (C18).
+// ---------------------------------------------------------------------------
+//@ extern bytes.Index(s, sep) r
+//@   ensures r == -1 || (0 <= r && r + len(sep) <= len(s))
+//@ extern bytes.LastIndex(s, sep) r
+//@   ensures r == -1 || (0 <= r && r + len(sep) <= len(s))
+//@ extern (*rsc.io/binaryregexp.Regexp).FindSubmatchIndex(re, b) r
+//@ func (*progressVariant).find
+//@   prop C04
+//@   requires p != nil && dir <= 1 && 0 <= p.streamOffset[dir] && p.streamOffset[dir] <= len(buffers[dir])
+//@   requires len(p.suffix) <= p.acceptedLength.MinLength && p.acceptedLength.MinLength <= p.acceptedLength.MaxLength
+//@   modifies p.streamOffset
+//@   ensures inside: old(p.streamOffset[dir]) <= p.streamOffset[dir] && p.streamOffset[dir] <= len(buffers[dir])
+//@   ensures other_dir: p.streamOffset[1-dir] == old(p.streamOffset[1-dir])
+//@   loop 1 invariant window: 0 <= p.streamOffset[dir] && old(p.streamOffset[dir]) <= p.streamOffset[dir] && p.streamOffset[dir] <= len(buffers[dir]) && \
+//@       same_slice(buffer[:0], buffers[dir][p.streamOffset[dir]:][:0]) && p.streamOffset[dir] + len(buffer) <= len(buffers[dir]) && \
+//@       p.streamOffset[1-dir] == old(p.streamOffset[1-dir]) && len(p.suffix) >= 1 && int(p.acceptedLength.MinLength) - len(p.suffix) <= len(buffer)
+//@   loop 1 decreases len(buffer)
+//@   assert before return#7: relative: same_slice(buffer[:0], buffers[dir][p.streamOffset[dir]:][:0])
+//@   assert before return#8: relative: implies(len(res) != 0 || !isnil(res), same_slice(buffer[:0], buffers[dir][p.streamOffset[dir]:][:0]))
